@@ -329,10 +329,13 @@ theorem scan_then_clean_safe_partial (t : Timeouts) (now tReal : Nat) (ct ct' : 
 theorem expired_idle {t : Timeouts} {now p : Nat} {e : Entry} (h : expired t now p e = true) : e.lastSeen < now :=
   expired_lt h
 
-/-- **Liveness (normal entries)**: an entry that is idle past its timeout when scanned and is not
-refreshed before the cleaner runs (it may have been evicted) is gone after one scan + one cleaner
-pass, whatever else happens to the map and whatever the queue order. -/
-theorem cleanup_live_normal (t : Timeouts) (now : Nat) (ct : AMap Key Entry) (items : List (Key × Entry))
+/-- **Liveness (normal entries; partial)**: an entry that is idle past its timeout when scanned and is
+not refreshed before the cleaner runs (it may have been evicted) is gone after one scan + one cleaner
+pass, whatever else happens to the map and whatever the queue order.
+PARTIAL: the scan is ATOMIC (one read of the map, `ItemsOK`), the queue the cleaner walks contains the
+whole scan result (`hall`; the mid-scan cleaner runs are not modelled), and no packet refreshes the
+entry between judgement and clean-up (`hun`). -/
+theorem cleanup_live_normal_partial (t : Timeouts) (now : Nat) (ct : AMap Key Entry) (items : List (Key × Entry))
     (ok : ItemsOK ct items) (k : Key) (e : Entry) (hmem : (k, e) ∈ items) (hn : e.typ = .normal)
     (hexp : expired t now k.proto e = true)
     (ct' : AMap Key Entry) (hun : ∀ e', ct'.get k = some e' → e' = e)
@@ -349,8 +352,11 @@ theorem cleanup_live_normal (t : Timeouts) (now : Nat) (ct : AMap Key Entry) (it
 whose reverse entry is idle past its timeout when scanned, and which sees no packet before the cleaner
 runs, loses its reverse (tracking) entry in one scan + one cleaner pass — and its forward entry too
 when both carried the same time stamp (two plain queue items); when the time stamps differ the two are
-removed together by the pair item unless another queue item removed the reverse entry first. -/
-theorem cleanup_live_pair (t : Timeouts) (now : Nat) (ct : AMap Key Entry) (items : List (Key × Entry))
+removed together by the pair item unless another queue item removed the reverse entry first.
+PARTIAL: atomic scan, queue = whole scan result, no packet on either entry (`hunF`, `hunR`), a single
+forward entry per reverse entry (`Pair.uniq`; a shared reverse entry needs a second scan — not proved),
+and for DIFFERENT time stamps only "the reverse entry goes" is concluded for the forward entry's fate. -/
+theorem cleanup_live_pair_partial (t : Timeouts) (now : Nat) (ct : AMap Key Entry) (items : List (Key × Entry))
     (ok : ItemsOK ct items) (kF kR : Key) (f r : Entry) (pr : Pair t now ct items kF kR f r)
     (hmF : (kF, f) ∈ items) (hmR : (kR, r) ∈ items) (hpR : kR.proto ≠ 0)
     (ct' : AMap Key Entry) (hunF : ∀ e', ct'.get kF = some e' → e' = f) (hunR : ∀ e', ct'.get kR = some e' → e' = r)
@@ -528,11 +534,79 @@ theorem cleanup_safe_full_is_false : ¬ Removal false wT 1000 wct wct' wkF wF :=
       revert h1; simp only [wct, AMap.get, wF]; rw [if_neg (by decide)]; simp [eq_comm]
     subst e1; revert h3; decide
 
+/-- **the property's language**: the timeouts of the table that apply to an entry, by the protocol of
+the key it is judged under and by its TCP state (the Lean twin of the harness's independent
+`idleExpired`): RST seen on a leg → `TCPResetSeen`; FINs seen (both legs, or one leg under DSR) →
+`TCPFinsSeen`; established or DSR → `TCPEstablished`, and 2 minutes if an RST time stamp is recorded;
+otherwise (handshake not finished) → `TCPSynSent`; ICMP, UDP and other protocols → their one timeout. -/
+def applicableTimeouts (t : Timeouts) (proto : Nat) (e : Entry) : List Nat :=
+  if proto = 6 then
+    (if e.rstSeen then [t.tcpResetSeen] else []) ++
+    (if (e.dsr && e.finsSeenDSR) || e.finsSeen then [t.tcpFinsSeen] else []) ++
+    (if e.established || e.dsr then
+      (if e.rstTs ≠ 0 then [120000000000] else []) ++ [t.tcpEstablished]
+     else [t.tcpSynSent])
+  else if proto = 1 || proto = 58 then [t.icmp]
+  else if proto = 17 then [t.udp]
+  else [t.generic]
+
+/-- **"judged expired" = "idle longer than a timeout that applies to its protocol and state"**:
+the model of `entryDone` says expired exactly when `now - last_seen` exceeds one of the applicable
+timeouts. -/
+theorem expired_iff_idle_past_applicable (t : Timeouts) (now p : Nat) (e : Entry) :
+    expired t now p e = true ↔ ∃ T ∈ applicableTimeouts t p e, e.lastSeen + T < now := by
+  unfold expired applicableTimeouts Entry.older
+  by_cases h6 : p = 6
+  · simp only [h6, if_true]
+    cases e.rstSeen <;> cases e.dsr <;> cases e.finsSeenDSR <;> cases e.finsSeen <;> cases e.established <;>
+      by_cases hr : e.rstTs = 0 <;> simp [hr] <;> omega
+  · simp only [h6, if_false]
+    by_cases h1 : (p = 1 || p = 58) = true
+    · simp [h1]
+    · simp only [h1, if_false, Bool.false_eq_true]
+      by_cases h17 : p = 17 <;> simp [h17]
+
+/-- idle longer than a timeout that applies to the entry's protocol (as judged under key protocol `p`) and state. -/
+def IdlePast (t : Timeouts) (now p : Nat) (e : Entry) : Prop :=
+  ∃ T ∈ applicableTimeouts t p e, e.lastSeen + T < now
+
+/-- **Safety in the property's own words** (outside the known finding): an entry the cleaner removes —
+under any interleaving of packets with the cleaner's steps — is either the `GapCase`, or it is
+untouched since the scan and was idle longer than a timeout applying to its protocol and state (a
+reverse entry possibly judged through its forward entry's key), or it is a forward entry whose reverse
+entry was gone, or it is the forward entry of a pair whose reverse entry was idle longer than an
+applicable timeout and is still untouched. -/
+theorem cleanup_safe_except_gap_idle (t : Timeouts) (now tReal : Nat) (ct : AMap Key Entry) (queue : AMap Key QVal)
+    (hq : ∀ kq ∈ queue, QSound t now ct kq)
+    (hold : ∀ k e, ct.get k = some e → e.lastSeen ≤ tReal)
+    (hproto : ∀ k e, ct.get k = some e → k.proto ≠ 0)
+    {cur : AMap Key Entry} (r : CleanRun tReal ct queue cur) (kq : Key × QVal) (hm : kq ∈ queue)
+    (x : Key) (e : Entry) (hg : cur.get x = some e) (hd : (cleanEntry cur kq.1 kq.2).get x = none) :
+    GapCase t now ct x e ∨
+    (ct.get x = some e ∧ e.typ ≠ .fwd ∧ IdlePast t now x.proto e) ∨
+    (ct.get x = some e ∧ ∃ kf f, ct.get kf = some f ∧ f.typ = .fwd ∧ f.revKey = x ∧ IdlePast t now kf.proto e) ∨
+    (ct.get x = some e ∧ e.typ = .fwd ∧ ct.get e.revKey = none) ∨
+    (∃ r, ct.get e.revKey = some r ∧ IdlePast t now x.proto r ∧ cur.get e.revKey = some r) := by
+  rcases cleanup_safe_except_gap t now tReal ct queue hq hold hproto r kq hm x e hg hd with h | h
+  · unfold Removal at h
+    rcases h with ⟨h0, h | h | h | ⟨hf, _⟩⟩ | ⟨r', h1, h2, h3⟩
+    · exact Or.inr (Or.inl ⟨h0, h.1, (expired_iff_idle_past_applicable t now x.proto e).1 h.2⟩)
+    · obtain ⟨kf, f, a1, a2, a3, a4⟩ := h
+      exact Or.inr (Or.inr (Or.inl ⟨h0, kf, f, a1, a2, a3, (expired_iff_idle_past_applicable t now kf.proto e).1 a4⟩))
+    · exact Or.inr (Or.inr (Or.inr (Or.inl ⟨h0, h⟩)))
+    · exact absurd hf (by decide)
+    · exact Or.inr (Or.inr (Or.inr (Or.inr ⟨r', h1, (expired_iff_idle_past_applicable t now x.proto r').1 h2, h3⟩)))
+  · exact Or.inl h
+
 /-- the witness of the finding is an instance of the `GapCase` (the exclusion is not wider than the finding). -/
 theorem witness_is_gap_case : GapCase wT 1000 wct wkF wF := by
   refine ⟨by decide, by decide, wR, by decide, by decide, by decide⟩
 
 /-! ### Non-vacuity -/
+
+/-- an established TCP entry with a recorded RST: 2 minutes and the established timeout apply. -/
+example : applicableTimeouts wT 6 { wF with typ := .normal, established := true, rstTs := 5 } = [120000000000, 3600] := by decide
+
 
 /-- a scan that queues a plain entry, a NAT pair (pair mode) and leaves a live entry alone. -/
 def nvCt : AMap Key Entry :=
@@ -556,11 +630,11 @@ def nvVisits : List Visit := [(wct, wkF, wF), (wct', wkR, { wR with lastSeen := 
 example : VisitsOK nvVisits := ⟨by decide, by decide, by decide, by decide⟩
 example : scanI wT 1000 nvVisits = [(wkF, ⟨dummyKey, 100, 100⟩)] := by decide
 
-/-- the hypotheses of `cleanup_live_pair` hold for the witness pair. -/
+/-- the hypotheses of `cleanup_live_pair_partial` hold for the witness pair. -/
 example : Pair wT 1000 wct wct wkF wkR wF wR :=
   ⟨by decide, by decide, by decide, by decide, by decide, by decide, by decide, by decide⟩
 
-/-- the hypotheses of `cleanup_live_normal` hold for the first entry of `nvCt`. -/
+/-- the hypotheses of `cleanup_live_normal_partial` hold for the first entry of `nvCt`. -/
 example : expired wT 1000 6 { wF with typ := .normal, lastSeen := 10, revKey := dummyKey } = true := by decide
 
 end CalicoVerif.C14
